@@ -571,6 +571,10 @@ func runHistory(hn int, backend string, seed int64, ops, gN, wN int, seq *atomic
 	for _, l := range logs {
 		evs = append(evs, l.ev...)
 	}
+	writeHistory(hn, backend, gN, wN, h, evs, out, st)
+}
+
+func writeHistory(hn int, backend string, gN, wN int, h *history, evs []event, out *bufio.Writer, st *stats) {
 	sort.Slice(evs, func(i, j int) bool { return evs[i].at < evs[j].at })
 
 	// history header: keys and the watch instances with their initial listings
@@ -650,6 +654,107 @@ func runHistory(hn int, backend string, seed int64, ops, gN, wN int, seq *atomic
 	st.Watches += len(order)
 }
 
+// scenario runs a fixed SEQUENTIAL script (one goroutine, same recording) - used for minimal replays of findings.
+//
+//	restore-stale: watch A open; write X; snapshot; write X again; restore; watch B opened while A's
+//	               subscription still exists; B's listing; then whatever B delivers within 300ms.
+func scenario(name, backend string, seq *atomic.Int64, out *bufio.Writer, st *stats) {
+	if name != "restore-stale" {
+		fatal(2, "unknown scenario %q", name)
+	}
+	var sut resh.SUT
+	var err error
+	switch backend {
+	case "store":
+		sut, err = resh.NewStore()
+	case "raft":
+		sut, err = resh.NewRaft()
+	default:
+		fatal(2, "scenario %s needs backend store or raft", name)
+	}
+	if err != nil {
+		fatal(2, "backend %s: %v", backend, err)
+	}
+	ctx, cancel := context.WithCancel(context.Background())
+	defer cancel()
+	h := &history{sut: sut, seq: seq, ctx: ctx, latest: map[keyT]kv{}, old: map[keyT][]kv{}, canSnap: true}
+	x := keyT{"default", "default", "a"}
+	h.keys = []keyT{x}
+	l := &logger{}
+	q := queryT{"*", "*", ""}
+	type wst struct {
+		w     storage.Watch
+		wid   int64
+		phase string
+	}
+	open := func(w int) *wst {
+		wid := h.widc.Add(1)
+		l.add(seq.Add(1), M{"e": "wopen", "w": w, "wid": wid, "q": q.j()})
+		wa, err := sut.WatchList(ctx, utyp, &pbresource.Tenancy{Partition: q.P, Namespace: q.N}, q.Pre)
+		if err != nil {
+			fatal(2, "WatchList: %v", err)
+		}
+		return &wst{wa, wid, "snap"}
+	}
+	next := func(w int, ws *wst, wait time.Duration) bool {
+		c, cc := context.WithTimeout(ctx, wait)
+		defer cc()
+		ev, err := ws.w.Next(c)
+		if err != nil {
+			if errors.Is(err, storage.ErrWatchClosed) {
+				l.add(seq.Add(1), M{"e": "wev", "w": w, "wid": ws.wid, "ph": ws.phase, "kind": "closed", "r": []any{}})
+				return true
+			}
+			return false // nothing delivered within the wait
+		}
+		var res *pbresource.Resource
+		kind := "eos"
+		if ev.GetUpsert() != nil {
+			kind, res = "upsert", ev.GetUpsert().GetResource()
+		} else if ev.GetDelete() != nil {
+			kind, res = "delete", ev.GetDelete().GetResource()
+		}
+		rs := []any{}
+		if res != nil {
+			rs = append(rs, resJ(res))
+		}
+		l.add(seq.Add(1), M{"e": "wev", "w": w, "wid": ws.wid, "ph": ws.phase, "kind": kind, "r": rs})
+		if kind == "eos" {
+			ws.phase = "live"
+		}
+		if res != nil {
+			k := keyOf(res.Id)
+			o, err := sut.Read(ctx, storage.EventualConsistency, idOf(k, ""))
+			rr := result(err, nil)
+			if err == nil {
+				rr = result(nil, []any{resJ(o)})
+			}
+			l.add(seq.Add(1), M{"e": "wrd", "w": w, "wid": ws.wid, "k": kj(k), "res": rr})
+		}
+		return true
+	}
+	a := open(100)
+	next(100, a, 5*time.Second) // eos
+	h.write(l, 0, x, "u1", "", 11, nil)
+	next(100, a, 5*time.Second)
+	h.snapshot(l, 0)
+	cur, _ := h.known(x)
+	h.write(l, 0, x, "u1", cur.ver, 22, nil)
+	next(100, a, 5*time.Second)
+	h.restore(l, 0)
+	next(100, a, 5*time.Second) // closed; A is deliberately not Close()d yet: its subscription keeps the topic buffer
+	b := open(101)
+	next(101, b, 5*time.Second) // listing: X as restored
+	next(101, b, 5*time.Second) // eos
+	for next(101, b, 300*time.Millisecond) {
+	}
+	a.w.Close()
+	b.w.Close()
+	sut.Close()
+	h.keys = []keyT{x}
+	writeHistory(0, backend+"/"+name, 1, 2, h, l.ev, out, st)
+}
+
 func main() {
 	backend := flag.String("backend", "inmem", "inmem | store | raft")
 	seed := flag.Int64("seed", 1, "seed")
@@ -659,6 +764,7 @@ func main() {
 	w := flag.Int("watchers", 0, "watcher goroutines (0 = 1..2 at random)")
 	first := flag.Int("first", 0, "number of the first history")
 	outp := flag.String("out", "", "output ndjson")
+	scen := flag.String("scenario", "", "run a fixed sequential script instead of random histories (restore-stale)")
 	flag.Parse()
 	if *outp == "" {
 		fatal(2, "-out required")
@@ -670,6 +776,10 @@ func main() {
 	out := bufio.NewWriter(f)
 	var seq atomic.Int64
 	st := &stats{Classes: map[string]int{}}
+	if *scen != "" {
+		scenario(*scen, *backend, &seq, out, st)
+		*n = 0
+	}
 	for i := 0; i < *n; i++ {
 		runHistory(*first+i, *backend, *seed, *ops, *g, *w, &seq, out, st)
 	}
